@@ -87,5 +87,126 @@ CHECKS = {
               "decision-table extraction from if/elif chains + exact interval algebra (static)"),
 }
 
+
+CHECKS.update({
+    "C05": _c("other",
+              "CFG must-pass-through and dominance order of the stages of new_version() (versionable check, revoked refusal, deep "
+              "copy before update, unmodifiable refusal, supplied-modified compare vs clock+fudge, None filtering) and of revoke(); "
+              "evaluated unmodifiable set and the UUIDv5 SCO lock; agreement of the fudge step of _fudge_modified (1 microsecond for "
+              "2.1, 1 ms for 2.0, comparison strictness) with the `modified` precision of all 39 versionable tables; strictness and "
+              "direction of the caller-supplied comparison; who-may-call of the wall clock in versioning.py.",
+              "DESIGN.md section 5, C05",
+              "Does NOT decide arithmetic over all clock readings / chains of versions, nor that exactly the requested changes are "
+              "applied by the class constructor.",
+              "CFG must-pass-through + dominance + table<->code agreement"),
+    "C06": _c("other",
+              "Set equality of the 18 identifier-contributing property lists with STIX 2.1 section 6 (names must be slots), the "
+              "namespace UUID and the hash-priority decision chain (names as HashesProperty normalises them), wiring of the "
+              "generation under `id not given` after the base constructor, name-independent shape of _generate_id (only keys "
+              "present, hashes through the chooser, canonicalize -> uuid5(namespace) -> type--uuid, None when empty), and an effect "
+              "scan of the call graph rooted at _generate_id for non-deterministic calls / set iteration.",
+              "DESIGN.md section 5, C06",
+              "Does NOT decide the exact hashed bytes for every value class (C16 decides the canonicaliser's shape) nor collision "
+              "freedom.",
+              "table/constant comparison + provenance of the id expression + call-graph effect scan"),
+    "C09": _c("other",
+              "Totality and symmetry preconditions of the equivalence test: producers (class names the visitor instantiates, "
+              "operator strings) are included in every dispatch table / isinstance chain of their category (109 instances); string "
+              "operations on comparison constants are dominated by a string-constant test; all 16 comparators are antisymmetric "
+              "(symbolic execution with both argument orders over every consistent truth assignment of their atomic conditions); "
+              "sub-sequence shape of both normalisation pipelines; both entry points use the same normaliser / comparator / == 0.",
+              "DESIGN.md section 5, C09",
+              "Does NOT decide soundness w.r.t. the STIX matching semantics nor transitivity (needs a semantic model of patterns).",
+              "producers-subset-handlers over extracted tables + symbolic mirror check of comparators"),
+    "C10": _c("other",
+              "The visitor overrides every rule method of the generated grammar visitor (v20 and v21 grammar read from the installed "
+              "stix2patterns package); for the 7 rules whose context can carry NOT the `negated` argument derives from the parse-tree "
+              "children and the operator is read after the optional NOT; operator strings are distinct grammar tokens; every "
+              "constructor-parameter attribute of the 37 model classes is printed by __str__ and assigned on every non-raising "
+              "constructor path; escaping order; a path step is left bare only when a regex included in the grammar's identifier "
+              "matches it.",
+              "DESIGN.md section 5, C10",
+              "Does NOT decide meaning preservation / print-parse fixed point for every pattern. One recorded known finding: the "
+              "2.1 rule propTestExists has no visitor method / model class.",
+              "grammar-oracle set comparison + provenance + CFG definite assignment + regex structure"),
+    "C11": _c("other",
+              "Necessary conditions only: the isfile() refusal is on every CFG path to the single write-mode open() of the filesystem "
+              "sink and tests the opened path; who-may-open-for-writing per store module; version file name derived from `modified` "
+              "through parse_into_datetime -> format_datetime with only separators stripped; the three newest-selection sites use a "
+              "recognised max idiom; every version stored under its modified key unconditionally and all versions enumerated; "
+              "save/load wiring.",
+              "DESIGN.md section 5, C11",
+              "Does NOT decide agreement with a list model over arbitrary add histories, input forms and timestamp spellings.",
+              "CFG must-pass-through + who-may-call + idiom recognition"),
+    "C12": _c("other",
+              "Operator decision table of Filter._check_property vs FILTER_OPS and the documented semantics (python operator and "
+              "operand order per operator), timestamp coercion structure, conjunction structure of apply_common_filters (CFG + flag "
+              "idiom), decision table {(property, op) -> effect} of the filesystem search optimiser vs the sound table and that the "
+              "complete query is re-applied to every file read, provenance of every value returned by get/all_versions/query of the "
+              "memory and filesystem sources from apply_common_filters with both filter sets.",
+              "DESIGN.md section 5, C12",
+              "Does NOT decide equality with a naive evaluation for every object population (dotted paths, list matching values).",
+              "decision-table extraction + CFG reachability + def-use provenance"),
+    "C13": _c("other",
+              "Interprocedural may-mutate effect analysis on a three-level alias/freshness lattice (object / elements / deeper; "
+              "origins parameter / interior / fresh), flow-sensitive per CFG, summaries composed over exactly resolved callees: "
+              "every argument parameter of 122 entry points (parse, all clean(), all _STIXBase __init__, versioning, markings, "
+              "stores, factory, serialisers) has an empty mutation summary; the five defensive deep copies dominate every edit; "
+              "_STIXBase is a read-only Mapping whose __setattr__ refuses public names on every path; who-may-write _inner.",
+              "DESIGN.md section 5, C13",
+              "Optimistic for unresolved / third-party / CHA-only calls (counted in evidence): a bug finder with explicit alias "
+              "chains, not a proof of absence. Value identity of results is not decided.",
+              "interprocedural effect (alias/mutation) analysis over CFG + call graph"),
+    "C15": _c("other",
+              "Symbolic run of format_datetime for every member of Precision x PrecisionConstraint with the fraction expression "
+              "interpreted over an abstract string domain (set of lengths, trailing-zero freedom): ANY/SECOND-MIN 0..6 stripped, "
+              "SECOND-EXACT none, MILLISECOND-EXACT exactly 3, MILLISECOND-MIN 3..6; dot iff fraction, suffix Z; truncation idioms "
+              "(no rounding) in both directions; UTC conversion precedes every field read; four-digit year; strptime %f domain; "
+              "TimestampProperty forwards both precision settings.",
+              "DESIGN.md section 5, C15",
+              "Does NOT decide the fixed point / monotonicity for every datetime (value arithmetic). One recorded known finding "
+              "(shared with C03): more than 6 fractional digits are refused.",
+              "abstract interpretation of the formatter over an abstract string domain + structural checks"),
+    "C16": _c("other",
+              "Sibling comparison of the value-class tables of the three encoder functions (bool before int, every numeric branch "
+              "through convert2Es6Format), UTF-16BE member sort key and canonical constructor arguments on the canonicalize() path, "
+              "static evaluation of ESCAPE_DCT (literal + setdefault loop) and of the ESCAPE character class against RFC 8785, the "
+              "constants of convert2Es6Format (zero, non-finite refusal dominating all formatting, exponent windows [1,20] and "
+              "[-6,-1] by interval algebra, exponent zero removal, '.0' removal).",
+              "DESIGN.md section 5, C16",
+              "Trusts CPython float repr (shortest round-trip digits) and the C string encoder; does NOT decide digit strings for "
+              "every double.",
+              "sibling table comparison + static evaluation of tables/regex + interval algebra"),
+    "C17": _c("other",
+              "Shape analysis (sa/kinds.py) of all pre-clean zones — parse, dict_to_stix2, parse_observable, detect_spec_version, "
+              "_get_dict, every __init__ of a _STIXBase subclass, helpers reached with raw values: no attribute access / string-key "
+              "subscript / integer index that can raise AttributeError/KeyError/IndexError on the possible shape outside a catching "
+              "try; presence analysis of optional slots dereferenced in constraint methods and their helpers; structure of the "
+              "exception wrapper and that every clean() is only reached through it; check-then-commit in registries and memory._add.",
+              "DESIGN.md section 5, C17",
+              "Does NOT decide termination / RecursionError on deeply nested input nor exceptions raised inside third-party "
+              "packages (stix2patterns, simplejson).",
+              "branch-refined shape (taint) dataflow over CFG, interprocedural into helpers + CFG dominance"),
+    "C18": _c("other",
+              "Every member call of CompositeDataSource.get/all_versions/query carries both filter sets (def-use provenance) and the "
+              "caller's id/query and ranges over all members; de-duplication on every non-empty result path keyed on "
+              "(id, modified-or-created); compare-and-replace idiom of the newest selection over all members; the 2x2 navigation "
+              "table of relationships(); shape of related_to / creator_of; *args/**kwargs delegation of DataStoreMixin and wiring of "
+              "Environment.",
+              "DESIGN.md section 5, C18",
+              "Does NOT decide equality with a scan for every partition of a population over members; TAXII sources are outside "
+              "the anchored files.",
+              "forwarding/provenance analysis + decision-table extraction + idiom recognition"),
+    "C19": _c("other",
+              "Per _register_* function: the registry expression tested and written is STIX2_OBJ_MAPS[version][<the category the "
+              "parsers look up>], key tested == key written == cls._type, duplicate refusal and every validation dominate the write, "
+              "no raise after it (check-then-commit), who-may-write the registries; decorators pass their package's version literal "
+              "and base classes and builders register what they build; common-property parity of the decorator tables with "
+              "built-in classes; structure of the type-name regexes and the 3..250 length rule.",
+              "DESIGN.md section 5, C19",
+              "Does NOT decide histories of registrations interleaved with parsing (process state).",
+              "CFG dominance (check-then-commit) + evaluated decorator tables + regex structure"),
+})
+
 _PENDING = "check under construction in this session (static rules designed in DESIGN.md section 5; not yet registered)"
 NOT_APPLICABLE = {("C%02d" % i): _PENDING for i in range(1, 21) if ("C%02d" % i) not in CHECKS}
